@@ -31,6 +31,9 @@ pub fn frame_summary(bytes: &[u8]) -> String {
         Some(uv::Frame::DisconnectFrame(_)) => "DISC".into(),
         Some(uv::Frame::DisconnectAckFrame(_)) => "DISCACK".into(),
         None => format!("INVALID({}B)", bytes.len()),
+        // a changed tree may know frame types this simulator does not: it must still build
+        #[allow(unreachable_patterns)]
+        Some(_) => format!("FRAME-TYPE-{}({}B)", bytes.first().copied().unwrap_or(0), bytes.len()),
     }
 }
 
